@@ -196,7 +196,7 @@ def _from_str_witnesses():
 
 def c12(tier, seed):
     units = [("layout", None, r"^(safety|decreases.*)$"), ("bf_alloc", None, r"^(safety|decreases.*)$"), ("macro_type", None, r"^safety$"),
-             ("edges", None, r"^safety$"), ("derive_gate", None, r"^safety$"), ("derives", None, r"^safety$"), ("fn_abi", None, r"^safety$"), ("constrain", None, r"^safety$"), ("prim_types", None, r"^safety$"), ("packed", None, r"^(safety|decreases.*)$"), ("blocklist", None, r"^safety$")]
+             ("edges", None, r"^safety$"), ("derive_gate", None, r"^safety$"), ("derives", None, r"^safety$"), ("fn_abi", None, r"^safety$"), ("constrain", None, r"^safety$"), ("prim_types", None, r"^safety$"), ("packed", None, r"^(safety|decreases.*)$"), ("blocklist", None, r"^safety$"), ("has_float", None, r"^safety$"), ("has_tp_array", None, r"^safety$"), ("has_destructor", None, r"^safety$"), ("lattice_insert", None, r"^safety$")]
     return _verus_prop("C12", tier, seed, units, {
         "trusted_base": LAYOUT_TRUST + ["alloc::fmt::format stubbed in the from_str witness harnesses (message text irrelevant)"],
         "functions_under_contract": LAYOUT_FNS + ["bindgen/ir/comp.rs: bitfields_to_allocation_units (no-clang-offset mode)", "and the functions of units macro_type, edges, derive_gate, derives, fn_abi (see C05, C07-C09, C14)"],
@@ -239,16 +239,19 @@ def c07(tier, seed):
     def extra():
         o1, c1 = units_incrate.run_spec(units_incrate.lattice_spec() + units_incrate.subscriptions_spec())
         return o1, c1
-    return _verus_prop("C07", tier, seed, [("edges", r"consider_edge", None)], {
+    return _verus_prop("C07", tier, seed, [("edges", r"consider_edge", None), ("has_float", None, None), ("has_tp_array", None, None),
+                                           ("has_destructor", None, None), ("lattice_insert", None, None)], {
         "trusted_base": INCRATE_TRUST + ["read-sets of each analysis' constrain (contracts/edges.py, hand-derived from the constrain bodies and the Trace impls)",
                                         "declared lattice orders taken from the enums' doc comments"],
         "functions_under_contract": ["bindgen/ir/derive.rs: CanDerive::join, BitOr, BitOrAssign", "bindgen/ir/analysis/has_vtable.rs: HasVtableResult::join(+ops), HasVtableAnalysis::consider_edge",
                                      "bindgen/ir/analysis/sizedness.rs: SizednessResult::join(+ops), SizednessAnalysis::consider_edge",
                                      "bindgen/ir/analysis/{has_destructor,has_float,has_type_param_in_array}.rs: consider_edge",
-                                     "bindgen/ir/analysis/derive.rs: consider_edge_default, DeriveTrait::consider_edge_comp/_typeref/_tmpl_inst"],
-        "assumptions": ["necessary conditions of the least-fixed-point property only: (i) joins are least upper bounds of the declared orders, (ii) every edge kind a rule reads along is in the analysis' subscription predicate",
-                        "the worklist driver analysis::analyze and the constrain bodies are NOT under contract (closures capturing &mut / live IR)"],
-        "unverified": ["MonotoneFramework::constrain bodies on real IR; analysis::analyze; generate_dependencies; Trace impls; completeness of the read-sets; termination; the declaration-order corollary"],
+                                     "bindgen/ir/analysis/derive.rs: consider_edge_default, DeriveTrait::consider_edge_comp/_typeref/_tmpl_inst",
+                                     "bindgen/ir/analysis/{has_float,has_type_param_in_array,has_destructor}.rs: insert and MonotoneFramework::constrain (units has_float, has_tp_array, has_destructor: inflationary, Changed <=> the fact set changed, fix-point equation of the rule; 'any base/field/argument has the fact' iterator chains = uninterpreted functions of the fact set)",
+                                     "bindgen/ir/analysis/{has_vtable,sizedness,derive}.rs: insert (+forward) of the lattice-valued analyses (unit lattice_insert: the key moves only up, to the join; Changed <=> it moved; Entry API desugared by rule R17)"],
+        "assumptions": ["necessary conditions of the least-fixed-point property: (i) joins are least upper bounds of the declared orders, (ii) every edge kind a rule reads along is in the analysis' subscription predicate, (iii) every table update is inflationary and reports Changed exactly when the table changed, (iv) the three set-valued rules compute the fact of a node from the current facts of its neighbours (fix-point equation)",
+                        "the worklist driver analysis::analyze, the constrain bodies of HasVtableAnalysis, SizednessAnalysis, CannotDerive::constrain (outer) and UsedTemplateParameters are NOT under contract"],
+        "unverified": ["constrain of has_vtable / sizedness / template_params; analysis::analyze; generate_dependencies; Trace impls; completeness of the read-sets; termination; the declaration-order corollary"],
     }, extra_obs=extra)
 
 
